@@ -1,1 +1,118 @@
-(* stub: to be written *)
+(* C06 — control flow is preserved for every branch choice and trip count.
+   Only statements here; models and proofs live in theories/Loop.v.  The scheme definitions
+   (while_scheme, batched_while_scheme, scan_scheme, scan2_scheme, scan_n_scheme, fori_scheme,
+   cond_plugin) are tied to the real exporter by harness/c06.py, which extracts their parameters
+   from exported ModelProtos and validates the assumed ONNX Loop/If semantics against onnxruntime. *)
+From Coq Require Import ZArith List Bool.
+From J2O Require Import Loop.
+Import ListNotations.
+Open Scope Z_scope.
+
+(* while: for every cond c, body b, captured constants k and initial state s0, if the JAX loop
+   performs n iterations (n = 0 included) the exported Loop(M = int64 max, c(s0); s' = b(s),
+   keep' = c(s')) returns the same final state, whatever (sufficient) fuel the evaluators get *)
+Theorem C06_while_scheme_correct :
+  forall (K St : Type) (c : K -> St -> bool) (b : K -> St -> St) (k : K) (s0 : St) (n : nat),
+  while_stops_at (c k) (b k) s0 n -> Z.of_nat n <= int64_max ->
+  forall fuel, (n <= fuel)%nat ->
+    while_scheme fuel int64_max c b k s0 = Done (k, iter (b k) n s0)
+    /\ jax_while fuel (c k) (b k) s0 = Done (iter (b k) n s0).
+Proof. exact (fun K St c b k s0 => while_scheme_correct K St c b k s0 int64_max). Qed.
+Print Assumptions C06_while_scheme_correct.
+
+Theorem C06_while_scheme_matches_jax :
+  forall (K St : Type) (c : K -> St -> bool) (b : K -> St -> St) (k : K) (s0 : St) (fuel : nat) (sN : St),
+  jax_while fuel (c k) (b k) s0 = Done sN -> Z.of_nat fuel <= int64_max ->
+  while_scheme fuel int64_max c b k s0 = Done (k, sN).
+Proof. exact (fun K St c b k s0 => while_scheme_matches_jax K St c b k s0 int64_max). Qed.
+Print Assumptions C06_while_scheme_matches_jax.
+
+(* vmapped while: every lane ends where its own independent JAX loop ends *)
+Theorem C06_batched_while_correct :
+  forall (St : Type) (c : St -> bool) (b : St -> St) (ss0 : list St) (ns : list nat),
+  Forall2 (while_stops_at c b) ss0 ns -> Z.of_nat (list_max ns) <= int64_max ->
+  forall fuel, (list_max ns <= fuel)%nat ->
+    batched_while_scheme fuel int64_max c b ss0 = Done (zipw (fun s n => iter b n s) ss0 ns)
+    /\ Forall2 (fun s n => jax_while fuel c b s = Done (iter b n s)) ss0 ns.
+Proof. exact (fun St c b ss0 ns => batched_while_correct St c b ss0 ns int64_max). Qed.
+Print Assumptions C06_batched_while_correct.
+
+(* scan with one scanned array of ANY length (0 included): final carry and stacked ys equal JAX's *)
+Theorem C06_scan_scheme_correct :
+  forall (K C X Y : Type) (f : K -> C -> X -> C * Y) (k : K) (init : C) (xs : list X) (fuel : nat),
+  (length xs <= fuel)%nat ->
+  scan_scheme fuel f k init xs = Done (jax_scan (f k) init xs).
+Proof. exact scan_scheme_correct. Qed.
+Print Assumptions C06_scan_scheme_correct.
+
+Theorem C06_scan_zero_length_gives_empty_ys :
+  forall (K C X Y : Type) (f : K -> C -> X -> C * Y) (k : K) (init : C) (fuel : nat),
+  scan_scheme fuel f k init (@nil X) = Done (init, @nil Y).
+Proof. exact scan_scheme_zero_length. Qed.
+Print Assumptions C06_scan_zero_length_gives_empty_ys.
+
+(* two scanned arrays of equal length (trip count taken from the first) *)
+Theorem C06_scan2_scheme_correct :
+  forall (K C A B Y : Type) (f : K -> C -> A * B -> C * Y) (k : K) (init : C)
+         (xs1 : list A) (xs2 : list B) (fuel : nat),
+  length xs1 = length xs2 -> (length xs1 <= fuel)%nat ->
+  scan2_scheme fuel f k init xs1 xs2 = Done (jax_scan (f k) init (combine xs1 xs2)).
+Proof. exact scan2_scheme_correct. Qed.
+Print Assumptions C06_scan2_scheme_correct.
+
+(* scan without scanned inputs, static length n >= 0 *)
+Theorem C06_scan_n_scheme_correct :
+  forall (K C Y : Type) (f : K -> C -> C * Y) (k : K) (init : C) (n fuel : nat),
+  (n <= fuel)%nat -> scan_n_scheme fuel f k init n = Done (jax_scan_n (f k) init n).
+Proof. exact scan_n_scheme_correct. Qed.
+Print Assumptions C06_scan_n_scheme_correct.
+
+(* fori_loop for ALL integer bounds, upper <= lower included *)
+Theorem C06_fori_scheme_correct :
+  forall (St : Type) (lower upper : Z) (body : Z -> St -> St) (init : St) (fuel : nat),
+  (Z.to_nat (upper - lower) <= fuel)%nat ->
+  fori_scheme fuel lower upper body init = Done (jax_fori lower upper body init).
+Proof. exact fori_scheme_correct. Qed.
+Print Assumptions C06_fori_scheme_correct.
+
+Theorem C06_fori_zero_trips :
+  forall (St : Type) (lower upper : Z) (body : Z -> St -> St) (init : St) (fuel : nat),
+  upper <= lower -> fori_scheme fuel lower upper body init = Done init.
+Proof. exact fori_scheme_zero_trips. Qed.
+Print Assumptions C06_fori_zero_trips.
+
+(* cond: both predicate values; If.then_branch is JAX's true_fun *)
+Theorem C06_cond_scheme_correct :
+  forall (A B : Type) (p : bool) (true_fun false_fun : A -> B) (x : A),
+  cond_plugin p [false_fun; true_fun] x = Some (jax_cond p true_fun false_fun x).
+Proof. exact cond_scheme_correct. Qed.
+Print Assumptions C06_cond_scheme_correct.
+
+(* the same when the predicate travels as an int32 selector (traced predicate): Cast<BOOL>(Cast<INT32>(p)) *)
+Theorem C06_cond_scheme_correct_int_pred :
+  forall (A B : Type) (p : bool) (true_fun false_fun : A -> B) (x : A),
+  cond_plugin (cast_bool (Z.b2z p)) [false_fun; true_fun] x = Some (jax_cond p true_fun false_fun x).
+Proof. exact cond_scheme_correct_int_pred. Qed.
+Print Assumptions C06_cond_scheme_correct_int_pred.
+
+(* two-way switch: every integer index, in range or not *)
+Theorem C06_switch2_scheme_correct :
+  forall (A B : Type) (idx : Z) (b0 b1 : A -> B) (x : A),
+  cond_plugin (cast_bool (clamp 0 idx 1)) [b0; b1] x = jax_switch idx [b0; b1] x.
+Proof. exact switch2_scheme_correct. Qed.
+Print Assumptions C06_switch2_scheme_correct.
+
+(* any other number of branches is rejected at export time *)
+Theorem C06_cond_rejects_other_arity :
+  forall (A B : Type) (sel : bool) (branches : list (A -> B)) (x : A),
+  length branches <> 2%nat -> cond_plugin sel branches x = None.
+Proof. exact cond_plugin_rejects_other_arity. Qed.
+Print Assumptions C06_cond_rejects_other_arity.
+
+(* the evaluator's fuel never changes a normal result *)
+Theorem C06_loop_result_independent_of_fuel :
+  forall (St Y : Type) (body : Z -> bool -> St -> option (bool * St * Y)) fuel M i keep s r,
+  onnx_loop fuel M i keep s body = Done r ->
+  forall fuel', (fuel <= fuel')%nat -> onnx_loop fuel' M i keep s body = Done r.
+Proof. exact onnx_loop_fuel_mono. Qed.
+Print Assumptions C06_loop_result_independent_of_fuel.
